@@ -665,6 +665,13 @@ class Terms(object):
                         b[callee.params[0]] = recv
                     self._defaults(callee, b)
                     return self.inline_return(callee, b, depth + 1)
+            if kws and ("." + f.attr) in METHOD_SIGS and set(k for k, _v in kws) <= set(METHOD_SIGS["." + f.attr]):
+                sig = METHOD_SIGS["." + f.attr]
+                kw = dict(kws)
+                args = list(args)
+                while len(args) < len(sig) and sig[len(args)] in kw:
+                    args.append(kw.pop(sig[len(args)]))
+                kws = tuple(sorted(kw.items()))
             nm = ext or ("." + f.attr)
             if cs is not None and len(cs.callees) > 1:
                 return ("call", "." + f.attr, (recv,) + tuple(args), kws)      # polymorphic receiver: identified by method name
@@ -836,6 +843,14 @@ EXT_SIGS = {
     "cryptography.hazmat.primitives.serialization.load_pem_private_key": ["data", "password", "backend"],
     "struct.unpack": ["format", "buffer"],
     "base64.b64encode": ["s", "altchars"],
+}
+
+
+METHOD_SIGS = {
+    ".sign": ["data", "padding", "algorithm"],          # cryptography RSAPrivateKey.sign
+    ".to_bytes": ["length", "byteorder"],
+    ".decode": ["encoding", "errors"],
+    ".encode": ["encoding", "errors"],
 }
 
 
